@@ -262,6 +262,18 @@ static int r_inverse(const Witness &w) {
             if (!(std::fabs(s - (i == j ? 1.0 : 0.0)) <= 1e-9)) FAIL("detail::inverse n=" << n << ": (A * inv(A))(" << i << "," << j << ") = " << s);
         }
     }
+    // a well-conditioned block that NEEDS row pivoting, with a tiny entry below the proper pivot in the same column:
+    // partial pivoting takes the 3; a pivot search that stops at "some entry larger than the diagonal candidate" takes 1e-13
+    {
+        const int n = 3;
+        double B[9] = {0, 2, 1,   3, 1, 2,   1e-13, 1, 4};
+        std::vector<double> A(B, B + 9), A0(A), t(9, NaN); std::vector<int> p(3, -1);
+        detail::inverse(n, A.data(), t.data(), p.data());
+        for (int i = 0; i < n; ++i) for (int j = 0; j < n; ++j) {
+            double s = 0; for (int k = 0; k < n; ++k) s += A0[i * n + k] * A[k * n + j];
+            if (!(std::fabs(s - (i == j ? 1.0 : 0.0)) <= 1e-9)) FAIL("detail::inverse, block with first column (0, 3, 1e-13): (A * inv(A))(" << i << "," << j << ") = " << s << " (pivot not the largest candidate)");
+        }
+    }
     (void)w;
     return 0;
 }
